@@ -10,6 +10,9 @@ PARTIAL = ("proved over the regenerated grammar, for every behaviour of the prim
            "the search oracle only")
 
 JUNK = ["\n)", "\n]]", "\n\x01", "\n@@@ ???", "\nendmodule", "\n\"unterminated", "\n`undefined_macro_is_a_pp_error"]
+# unparsable text that starts like a continuation of the last description (label colon, parameter hash, ...)
+JUNK2 = [": 1", ":;", ": (", " : ", "\n: 1", "#", "# (", "(", "[", ".x", "= 1", "::", ",", "@ (", "begin", "; ;;", "else", "'", "1", "? :",
+         "`celldefine\n: 1", "/* c */ : 2"]
 HEADS = ["timeunit 1ns\nmodule m; endmodule\n", "timeunit 1ns / ;", "timeprecision ;", "timeunit", "timeunit 1ns; timeprecision 1ps\n",
          "timeunit 1ns/1ps;\nmodule m; endmodule\n", "   // c\n  timeunit 1ns", "module", "module m", "module m;", "module m; wire",
          "library", "library l", "include", "config c; design", ";", ")", "`resetall", "package p; endpackage module", "bind"]
@@ -57,13 +60,17 @@ def check(ctx):
         c.add("opt", "incomplete", 0).add("run", "parse_%s_str" % k, hx(s), hx("t.sv"))
         c.add("opt", "incomplete", 1).add("run", "parse_%s_str" % k, hx(s), hx("t.sv"))
         c.add("opt", "incomplete", 1).add("run", "parse_%s_str" % k, hx(s + "\n) \x01 garbage"), hx("t.sv"))
+        j2 = r.choice(JUNK2)
+        j2 = r.choice([" ", "\n"] if (j2[0].isalnum() or j2[0] in "_$") else ["", " ", "\n"]) + j2   # never glue two words
+        c.add("opt", "incomplete", 1).add("run", "parse_%s_str" % k, hx(s + j2), hx("t.sv"))
+        c.add("opt", "incomplete", 0).add("run", "parse_%s_str" % k, hx(s + j2), hx("t.sv"))
         cases.append(c)
-        meta[c.id] = (k, s)
+        meta[c.id] = (k, s, j2)
     impl = run_harness("api", cases, "c15", timeout=1800)
     bad = None
     second = []     # (kind, prefix text, incomplete tree line) to check that the prefix is made of complete descriptions
     for c in cases:
-        k, s = meta[c.id]
+        k, s, j2 = meta[c.id]
         lines = impl.get(c.id) or []
         ctx.corr_cases += 1
         cr = crashed(lines)
@@ -101,6 +108,17 @@ def check(ctx):
                 b = svtree.skeleton(svtree.parse_tree_line(jt[0]))
                 if a != b:
                     bad = bad or (k, s, "appending unparsable text changed the tree (white space aside)")
+            # a second suffix, one that starts like a continuation; it counts as unparsable when strict mode rejects
+            # the extended text
+            if len(runs) >= 6 and not any(l.startswith("tree ") for l in runs[5]):
+                jt2 = [l for l in runs[4] if l.startswith("tree ")]
+                if not jt2:
+                    if not any(l.startswith("err Preprocess") or l.startswith("err Define") for l in runs[4]):
+                        bad = bad or (k, s + j2, "appending unparsable text %r made incomplete mode fail: %s" % (j2, runs[4][:1]))
+                elif svtree.skeleton(svtree.parse_tree_line(it[0])) != svtree.skeleton(svtree.parse_tree_line(jt2[0])):
+                    bad = bad or (k, s + j2, "appending the unparsable text %r changed the tree (white space aside)" % j2)
+                else:
+                    ctx.count("continuation_like_junk_ok")
         lv = svtree.leaves(tree)
         end = lv[-1][1] + lv[-1][2] if lv else 0
         if not st and 0 < end:
